@@ -6,6 +6,8 @@
  *   VC_SCEN 2  go_into_object on a pending '{': object nesting limit (max_depth levels; MAX_DEPTH_OBJECT beyond)
  *   VC_SCEN 3  next inside an object on "name scalar": decodes exactly what the bytes encode (oracle: spec/ref_binson.h)
  *   VC_SCEN 4  lookup that overshoots: cursor back at the first byte of the overshooting name, nothing else moved
+ *   VC_SCEN 5  field-name order: a name that is not strictly greater (bytewise, shorter first) than the previous one is FORMAT
+ *   VC_SCEN 6  a malformed token is rejected whatever the scan is (next, enter, leave, verify): skipping validates like entering
  */
 #include <stdlib.h>
 #define REF_MAXSTK 4
@@ -19,7 +21,11 @@ unsigned char nondet_uchar(void);
 size_t vc_k, vc_j, vc_memcmp_idx, vc_cstr_max, vc_strlen_result, vc_memcmp_n;
 int vc_memcmp_result; const void *vc_memcmp_a, *vc_memcmp_b;
 
+#ifdef VC_STEP_MD
+#define MD VC_STEP_MD
+#else
 #define MD 3
+#endif
 #ifndef VC_STEP_MAXBUF
 #define VC_STEP_MAXBUF 64          /* the tokens of the step lie in the first bytes behind the cursor */
 #endif
@@ -30,13 +36,23 @@ void h_step(void)
     size_t n = nondet_size_t();
     __CPROVER_assume(n >= 1 && n <= VC_STEP_MAXBUF);
     uint8_t *buf = malloc(n);
-    binson_state *st = malloc(MD * sizeof(binson_state));
+#ifdef VC_STEP_MD_SYM
+    /* symbolic max_depth 1..255 with a state array of exactly that many entries; depth at the two deepest levels */
+    uint_fast8_t md_sym = nondet_uchar();
+    __CPROVER_assume(md_sym >= 1);
+#undef MD
+#define MD md_sym
+#endif
+    binson_state *st = malloc((size_t) MD * sizeof(binson_state));
     __CPROVER_assume(buf != NULL && st != NULL);
     p.type = nondet_bool() ? BINSON_PTYPE_OBJECT : BINSON_PTYPE_ARRAY;
     p.max_depth = MD; p.buffer = buf; p.buffer_size = n; p.state = st; p.cb = NULL; p.cb_context = NULL;
     p.error_flags = BINSON_ERROR_NONE;
     p.depth = nondet_uchar();
     __CPROVER_assume(p.depth >= 1 && p.depth <= MD);
+#if defined(VC_STEP_MD) || defined(VC_STEP_MD_SYM)
+    __CPROVER_assume(p.depth >= MD - 1);        /* the two deepest levels only: the boundary of the 8-bit depth counter */
+#endif
     p.current_state = &st[p.depth - 1];
     p.buffer_used = nondet_size_t();
     __CPROVER_assume(p.buffer_used < n);
@@ -112,6 +128,34 @@ void h_step(void)
     __CPROVER_assert(p.depth == o_depth && p.current_state == lv && lv->flags == BINSON_STATE_IN_OBJ_EXPECTING_FIELD &&
                      lv->current_name.bptr == o_nptr && lv->current_name.bsize == o_nsize,
                      "nothing else at the level moved: a field is expected, the previous name is kept");                      /*@ rewind-state-restored */
+#elif VC_SCEN == 5
+    __CPROVER_assume(lv->flags == BINSON_STATE_IN_OBJ_EXPECTING_FIELD && lv->array_depth == 0);
+    /* a previous field name of 0..4 bytes somewhere in the buffer (an EMPTY previous name is a name too) */
+    size_t poff = nondet_size_t(), plen = nondet_size_t();
+    __CPROVER_assume(plen <= 4 && poff <= n && plen <= n - poff);
+    lv->current_name.bptr = buf + poff; lv->current_name.bsize = plen;
+    ref_token nt = ref_scan(buf, n, o_used);
+    __CPROVER_assume(nt.kind == RT_STRING && nt.pay_len <= 4);
+    ref_token vt = ref_scan(buf, n, o_used + nt.len);
+    __CPROVER_assume(vt.kind == RT_BOOL || vt.kind == RT_INT);
+    int ord = ref_cmp(buf + poff, plen, buf + nt.pay_off, nt.pay_len);
+    bool r = _advance_parsing(&p, BINSON_ADVANCE_VALUE, NULL);
+    __CPROVER_assert(ord < 0 || (!r && p.error_flags == BINSON_ERROR_FORMAT),
+                     "a field name that does not sort strictly after the previous one is rejected with FORMAT");             /*@ order-strict */
+    __CPROVER_assert(ord >= 0 || (r && p.error_flags == BINSON_ERROR_NONE && lv->current_name.bptr == buf + nt.pay_off &&
+                                  lv->current_name.bsize == nt.pay_len),
+                     "a strictly greater field name is accepted and becomes the previous name");                             /*@ order-accepts-ascending */
+#elif VC_SCEN == 6
+    __CPROVER_assume(lv->flags == BINSON_STATE_IN_OBJ_EXPECTING_VALUE ||
+                     ((lv->flags == BINSON_STATE_IN_ARRAY_1 || lv->flags == BINSON_STATE_IN_ARRAY_2) && lv->array_depth >= 1));
+    ref_token t = ref_scan(buf, n, o_used);
+    __CPROVER_assume(t.kind == RT_ERR);                    /* malformed value token: bad width, bad length, truncated, unknown byte */
+    uint8_t sf = nondet_uchar();
+    __CPROVER_assume(sf == BINSON_ADVANCE_VERIFY || sf == BINSON_ADVANCE_VALUE || sf == BINSON_ADVANCE_LEAVE_OBJECT ||
+                     sf == BINSON_ADVANCE_LEAVE_ARRAY || sf == BINSON_ADVANCE_ENTER_OBJECT || sf == BINSON_ADVANCE_ENTER_ARRAY);
+    bool r = _advance_parsing(&p, sf, NULL);
+    __CPROVER_assert(!r && p.error_flags == ((t.why == RW_RANGE) ? BINSON_ERROR_RANGE : BINSON_ERROR_FORMAT),
+                     "a malformed token is rejected with the same code whatever the scan flags are");                        /*@ rule-independent-of-scan-flags */
 #endif
     __CPROVER_assert(0, "vacuity control: step harness end reachable");
 }
